@@ -87,8 +87,15 @@ fn media_info(g: &mut G, visual: bool) -> Value {
     if g.b() {
         o.insert("size".into(), json!(g.int()));
     }
-    if g.b() {
-        o.insert("thumbnail_url".into(), json!(g.mxc()));
+    let thumb = g.n(5);
+    if thumb != 0 {
+        if thumb != 2 {
+            o.insert("thumbnail_url".into(), json!(g.mxc()));
+        }
+        if thumb >= 2 && thumb != 4 {
+            // 2: encrypted thumbnail, 3: both spellings at once (outside the specification's shape)
+            o.insert("thumbnail_file".into(), encrypted_file(g));
+        }
         o.insert("thumbnail_info".into(), json!({"h": 10, "w": 10, "mimetype": "image/jpeg", "size": 100}));
     }
     g.extra(&mut o);
@@ -145,10 +152,19 @@ pub fn room_message(g: &mut G) -> Value {
             }
         }
         "m.image" | "m.video" | "m.audio" | "m.file" => {
-            if g.b() {
-                o.insert("file".into(), encrypted_file(g));
-            } else {
-                o.insert("url".into(), json!(g.mxc()));
+            // plain (`url`), encrypted (`file`), or - not as the specification describes, but seen
+            // on the wire - both at once
+            match g.n(5) {
+                1 | 2 => {
+                    o.insert("file".into(), encrypted_file(g));
+                }
+                3 => {
+                    o.insert("file".into(), encrypted_file(g));
+                    o.insert("url".into(), json!(g.mxc()));
+                }
+                _ => {
+                    o.insert("url".into(), json!(g.mxc()));
+                }
             }
             if g.b() {
                 let info = if msgtype == "m.audio" {
@@ -272,7 +288,16 @@ pub fn schemas() -> Vec<Schema> {
         schema!("m.room.avatar", State, |g| {
             let mut o = Map::new();
             if g.b() { o.insert("url".into(), json!(g.mxc())); }
-            if g.b() { o.insert("info".into(), image_info(g)); }
+            if g.b() {
+                // the avatar's ImageInfo has no encrypted thumbnail in the specification
+                let mut info = image_info(g);
+                if let Some(i) = info.as_object_mut() {
+                    if i.remove("thumbnail_file").is_some() && !i.contains_key("thumbnail_url") {
+                        i.remove("thumbnail_info");
+                    }
+                }
+                o.insert("info".into(), info);
+            }
             g.extra(&mut o);
             Value::Object(o)
         }),
